@@ -1260,8 +1260,10 @@ namespace chaiscript {
           : AST_Node_Impl<T>(std::move(t_ast_node_text), AST_Node_Type::Try, std::move(t_loc), std::move(t_children)) {
       }
 
+      /// Must be called from within a catch handler: rethrows the in-flight exception if no catch clause accepts it
       Boxed_Value handle_exception(const chaiscript::detail::Dispatch_State &t_ss, const Boxed_Value &t_except) const {
         Boxed_Value retval;
+        bool handled = false;
 
         size_t end_point = this->children.size();
         if (this->children.back()->identifier == AST_Node_Type::Finally) {
@@ -1274,29 +1276,42 @@ namespace chaiscript {
 
           if (catch_block.children.size() == 1) {
             // No variable capture
+            handled = true;
             retval = catch_block.children[0]->eval(t_ss);
             break;
           } else if (catch_block.children.size() == 2 || catch_block.children.size() == 3) {
             const auto name = Arg_List_AST_Node<T>::get_arg_name(*catch_block.children[0]);
 
-            if (dispatch::Param_Types(
-                    std::vector<std::pair<std::string, Type_Info>>{Arg_List_AST_Node<T>::get_arg_type(*catch_block.children[0], t_ss)})
-                    .match(Function_Params{t_except}, t_ss.conversions())
-                    .first) {
+            const dispatch::Param_Types clause_type(
+                std::vector<std::pair<std::string, Type_Info>>{Arg_List_AST_Node<T>::get_arg_type(*catch_block.children[0], t_ss)});
+            auto [is_match, needs_conversion] = clause_type.match(Function_Params{t_except}, t_ss.conversions());
+            if (is_match && needs_conversion) {
+              // the two types are related, but only the object itself tells whether it really is of the clause's type
+              try {
+                clause_type.convert(Function_Params{t_except}, t_ss.conversions());
+              } catch (const exception::bad_boxed_cast &) {
+                is_match = false;
+              }
+            }
+
+            if (is_match) {
               t_ss.add_object(name, t_except);
 
               if (catch_block.children.size() == 2) {
                 // Variable capture
+                handled = true;
                 retval = catch_block.children[1]->eval(t_ss);
                 break;
               }
             }
           } else {
-            if (this->children.back()->identifier == AST_Node_Type::Finally) {
-              this->children.back()->children[0]->eval(t_ss);
-            }
             throw exception::eval_error("Internal error: catch block size unrecognized");
           }
+        }
+
+        if (!handled) {
+          // no clause accepted it: the exception continues outward unchanged
+          throw;
         }
 
         return retval;
@@ -1308,18 +1323,22 @@ namespace chaiscript {
         chaiscript::eval::detail::Scope_Push_Pop spp(t_ss);
 
         try {
-          retval = this->children[0]->eval(t_ss);
-        } catch (const exception::eval_error &e) {
-          retval = handle_exception(t_ss, Boxed_Value(std::ref(e)));
-        } catch (const std::runtime_error &e) {
-          retval = handle_exception(t_ss, Boxed_Value(std::ref(e)));
-        } catch (const std::out_of_range &e) {
-          retval = handle_exception(t_ss, Boxed_Value(std::ref(e)));
-        } catch (const std::exception &e) {
-          retval = handle_exception(t_ss, Boxed_Value(std::ref(e)));
-        } catch (Boxed_Value &e) {
-          retval = handle_exception(t_ss, e);
+          try {
+            retval = this->children[0]->eval(t_ss);
+          } catch (const exception::eval_error &e) {
+            retval = handle_exception(t_ss, Boxed_Value(std::ref(e)));
+          } catch (const std::runtime_error &e) {
+            retval = handle_exception(t_ss, Boxed_Value(std::ref(e)));
+          } catch (const std::out_of_range &e) {
+            retval = handle_exception(t_ss, Boxed_Value(std::ref(e)));
+          } catch (const std::exception &e) {
+            retval = handle_exception(t_ss, Boxed_Value(std::ref(e)));
+          } catch (Boxed_Value &e) {
+            retval = handle_exception(t_ss, e);
+          }
         } catch (...) {
+          // anything leaving the try block or a catch block (an unmatched exception, an exception or a
+          // return/break/continue raised inside a handler) still runs the finally block, once
           if (this->children.back()->identifier == AST_Node_Type::Finally) {
             this->children.back()->children[0]->eval(t_ss);
           }
